@@ -4,7 +4,7 @@ CHECK = dict(
     property='C17', level='exploration',
     families=[('limits', 1.0)],
     budget=dict(quick=55, thorough=900), max_runs=dict(quick=50_000, thorough=2_000_000),
-    rule=('the operator\'s `query` command (own limit 10 / 1000 / 5000) on the heavy script before clients ask; each evaluation = one simulated run of the real server, one of two motifs. Long thin chain (2030-2200 '
+    rule=('requests for the heavy script\'s history in flight while the blocks that take it across the limit are indexed (slow flushes, a pre-emption point between the two commits): every reply is the complete history of some height below the limit; the operator\'s `query` command (own limit 10 / 1000 / 5000) on the heavy script before clients ask; each evaluation = one simulated run of the real server, one of two motifs. Long thin chain (2030-2200 '
           'blocks): blockchain.block.headers(start, count, cp) over a grid around the chain start / end, the 2016 '
           'cap (2015, 2016, 2017, 3000, 10**6) and the checkpoint bounds, asked at quiescence and while the tip '
           'still moves: count == headers in hex <= min(requested, 2016), max == 2016, and (index at the tip for the '
